@@ -211,3 +211,144 @@ func (m *hashmap) entries() map[int]*entry {
 	}
 	return nil
 }
+
+// ---- symbolic string keys in builtin maps ----
+// A symstr cannot be a host map key, so entries whose key has symbolic bytes live in a side list per
+// map; lookups compare with symbolic equality (a decision per candidate of the same length).
+
+type symKV struct {
+	k symstr
+	v value
+}
+
+var symEntries = map[uintptr][]symKV{}
+
+func keyEqDecide(a, b value) bool {
+	if strLen(a) != strLen(b) {
+		return false
+	}
+	switch r := strEq(a, b).(type) {
+	case bool:
+		return r
+	case sym:
+		return ex.branch(r.t)
+	}
+	return false
+}
+
+// mapGet looks k up in m (k may be a symbolic string).
+func mapGet(m map[value]value, k value) (value, bool) {
+	if m == nil {
+		return nil, false
+	}
+	id := mapID(m)
+	side := symEntries[id]
+	if ks, isSym := k.(symstr); isSym {
+		for _, ck := range mapOrder[id] {
+			switch ck := ck.(type) {
+			case string:
+				if keyEqDecide(ks, ck) {
+					return m[ck], true
+				}
+			}
+		}
+		for _, e := range side {
+			if keyEqDecide(ks, e.k) {
+				return e.v, true
+			}
+		}
+		return nil, false
+	}
+	if v, ok := m[k]; ok {
+		return v, true
+	}
+	if _, isStr := k.(string); isStr {
+		for _, e := range side {
+			if keyEqDecide(k, e.k) {
+				return e.v, true
+			}
+		}
+	}
+	return nil, false
+}
+
+func mapLen(m map[value]value) int {
+	if m == nil {
+		return 0
+	}
+	return len(m) + len(symEntries[mapID(m)])
+}
+
+func mapSetAny(m map[value]value, k, v value) {
+	id := mapID(m)
+	if ks, isSym := k.(symstr); isSym {
+		for _, ck := range mapOrder[id] {
+			if cs, ok := ck.(string); ok && keyEqDecide(ks, cs) {
+				m[cs] = v
+				return
+			}
+		}
+		side := symEntries[id]
+		for i := range side {
+			if keyEqDecide(ks, side[i].k) {
+				side[i].v = v
+				return
+			}
+		}
+		symEntries[id] = append(side, symKV{ks, v})
+		return
+	}
+	if _, isStr := k.(string); isStr {
+		side := symEntries[id]
+		for i := range side {
+			if keyEqDecide(k, side[i].k) {
+				side[i].v = v
+				return
+			}
+		}
+	}
+	mapSet(m, k, v)
+}
+
+func mapDeleteAny(m map[value]value, k value) {
+	if m == nil {
+		return
+	}
+	id := mapID(m)
+	if ks, isSym := k.(symstr); isSym {
+		for _, ck := range mapOrder[id] {
+			if cs, ok := ck.(string); ok && keyEqDecide(ks, cs) {
+				mapDelete(m, cs)
+				return
+			}
+		}
+	} else if _, ok := m[k]; ok {
+		mapDelete(m, k)
+		return
+	}
+	if !isStrVal(k) {
+		return
+	}
+	side := symEntries[id]
+	for i := range side {
+		if keyEqDecide(k, side[i].k) {
+			symEntries[id] = append(side[:i:i], side[i+1:]...)
+			return
+		}
+	}
+}
+
+// mapEntries returns the entries in a deterministic order (concrete keys in insertion order, then
+// the symbolic-key entries).
+func mapEntries(m map[value]value) [][2]value {
+	var res [][2]value
+	for _, k := range mapKeys(m) {
+		res = append(res, [2]value{k, m[k]})
+	}
+	if m != nil {
+		for _, e := range symEntries[mapID(m)] {
+			res = append(res, [2]value{e.k, e.v})
+		}
+	}
+	return res
+}
